@@ -104,15 +104,25 @@ pub fn record(args: &[String]) {
             }
         }
     }
-    // the start-up heuristic through the verif wrapper
+    // the start-up heuristic through the verif wrapper (k >= 5: very narrow / very wide targets, also in f32: the search
+    // runs through dozens of doublings / halvings)
     let dev = <B64 as Backend>::Device::default();
-    for (k, own) in [OwnN::GaussP { prec: vec![vec![1.0]] }, OwnN::GaussP { prec: vec![vec![1e4]] }, OwnN::GaussP { prec: vec![vec![1e-4]] }, OwnN::Steep { c: 1e3 }, OwnN::HalfLine].into_iter().enumerate() {
+    let dev32 = <B32 as Backend>::Device::default();
+    for (k, own) in [OwnN::GaussP { prec: vec![vec![1.0]] }, OwnN::GaussP { prec: vec![vec![1e4]] }, OwnN::GaussP { prec: vec![vec![1e-4]] }, OwnN::Steep { c: 1e3 }, OwnN::HalfLine,
+                     OwnN::GaussP { prec: vec![vec![1e10]] }, OwnN::GaussP { prec: vec![vec![1e-9]] }, OwnN::GaussP { prec: vec![vec![1e10]] }, OwnN::GaussP { prec: vec![vec![1e-9]] }].into_iter().enumerate() {
+        let f32_case = k >= 7;
         for t in 0..(if thorough { 12 } else { 4 }) {
-            let x0 = vec![0.3 + 0.4 * t as f64];
-            let p0 = vec![((splitmix(&mut s) % 4000) as f64 / 1000.0) - 2.0];
+            let scale = match &own { OwnN::GaussP { prec } if k >= 5 => 1.0 / prec[0][0].sqrt(), _ => 1.0 };
+            let x0 = vec![((0.3 + 0.4 * t as f64) * scale) as f32 as f64];
+            let p0 = vec![(((splitmix(&mut s) % 4000) as f64 / 1000.0) - 2.0) as f32 as f64];
             let tx = Tensor::<B64, 1>::from_data(TensorData::new(x0.clone(), [1]), &dev);
             let tp = Tensor::<B64, 1>::from_data(TensorData::new(p0.clone(), [1]), &dev);
             let eps: Result<f64, String> = catch(|| match &own {
+                OwnN::GaussP { prec } if f32_case => {
+                    let tx = Tensor::<B32, 1>::from_data(TensorData::new(vec![x0[0] as f32], [1]), &dev32);
+                    let tp = Tensor::<B32, 1>::from_data(TensorData::new(vec![p0[0] as f32], [1]), &dev32);
+                    mini_mcmc::nuts::verif_api::find_reasonable_epsilon::<B32, f32, _>(tx, tp, &GaussP { prec: prec.clone() }) as f64
+                }
                 OwnN::GaussP { prec } => mini_mcmc::nuts::verif_api::find_reasonable_epsilon::<B64, f64, _>(tx, tp, &GaussP { prec: prec.clone() }),
                 OwnN::Steep { c } => mini_mcmc::nuts::verif_api::find_reasonable_epsilon::<B64, f64, _>(tx, tp, &Steep { c: *c }),
                 _ => mini_mcmc::nuts::verif_api::find_reasonable_epsilon::<B64, f64, _>(tx, tp, &HalfLineN),
@@ -134,7 +144,8 @@ pub fn record(args: &[String]) {
             };
             let a = if la(1.0) > 0.5f64.ln() { 1.0 } else { -1.0 };
             let ln2 = std::f64::consts::LN_2;
-            let slack = 1e-9;
+            // f32 arithmetic of the implementation against the f64 reference: a wider dead zone around the threshold
+            let slack = if f32_case { 2e-2 } else { 1e-9 };
             // exit: a * la(eps) <= -a ln 2 ; the candidate before it still satisfied the loop condition
             // (if the very first trial step leaves the support the implementation first halves until it is finite:
             // Algorithm 4 has no such phase, only positivity and the power of two are asserted then)
